@@ -32,7 +32,9 @@ Mutate(o, e) ==
   CASE e.op = "set_int"   -> IF PIdx(e.i, Len(o)) = -1 THEN X ELSE R([o EXCEPT ![PIdx(e.i, Len(o)) + 1] = e.val[1]])
     [] e.op = "set_slice" -> R(PSetList(o, SliceRange(e.start, e.stop, e.step, Len(o)), e.val))
     [] e.op = "set_list"  -> R(PSetList(o, e.idx, e.val))
-IsMut(e) == e.op \in {"set_int", "set_slice", "set_list"}
+    [] e.op = "set_dim"   -> IF e.n <= 0 THEN X                                  \* a.dim = n: truncation or zero-extension (n > 0)
+                             ELSE R(LET F(j) == IF j <= Len(o) THEN o[j] ELSE CZ(e.k) IN Mk(F, e.n))
+IsMut(e) == e.op \in {"set_int", "set_slice", "set_list", "set_dim"}
 Judge(o, e) ==
   IF IsMut(e)
   THEN LET m == Mutate(o, e) IN
